@@ -720,7 +720,18 @@ impl<'a, 'b, 'ast> Visit<'ast> for Collector<'a, 'b> {
                     Some(t) if matches!(c.output, syn::ReturnType::Default) => {
                         let body = rw.render_expr(&c.body);
                         let sp = c.body.span().byte_range();
-                        self.edits.push((sp.start, sp.end, format!("{} {{ {} }}", t.trim_end(), body)));
+                        // optional "closure N params": a single pattern parameter `|(c, a)|` becomes
+                        // `|__p: T|` with `let (c, a) = __p;` at the start of the body (how rustc binds it)
+                        let mut bind = String::new();
+                        if let Some(pt) = rw.section(&format!("closure {idx} params")) {
+                            if c.inputs.len() == 1 {
+                                let pat = &c.inputs[0];
+                                let pr = pat.span().byte_range();
+                                bind = format!("let {} = __p; ", &rw.src[pr.clone()]);
+                                self.edits.push((pr.start, pr.end, pt.trim().to_string()));
+                            }
+                        }
+                        self.edits.push((sp.start, sp.end, format!("{} {{ {}{} }}", t.trim_end(), bind, body)));
                         rw.count("R11");
                     }
                     _ => rw.err("unsupported-construct", format!("closure {idx} in body without a contract section")),
